@@ -390,6 +390,7 @@ Proof.
   destruct (vk_challenge p) as [c|] eqn:Ec; [|discriminate].
   destruct (Z.eqb_spec c (hash_commit false l)) as [Hc1|]; [|discriminate].
   destruct (Z.eqb_spec c (hash_commit false l')) as [Hc2|]; [|discriminate]. cbn [negb] in *.
+  clear H1 H2.
   destruct (list_eq_dec Z.eq_dec l l') as [Heq|Hne].
   - left. subst l'.
     apply vk_list_shape in E1 as (gp & c1 & fr & pre & post & G1 & C1 & F1 & P1 & L1).
@@ -423,5 +424,20 @@ Proof.
   destruct (vk_list n bases p) as [l| |]; cbn [obind]; try discriminate.
   destruct (vk_challenge p) as [c|]; [|discriminate].
   destruct (Z.eqb_spec c (hash_commit false l)); [|discriminate]. cbn [negb].
+  destruct (vk_nonzero n bases p l) as [nz| |]; cbn [obind]; try discriminate.
+  destruct nz; cbn [negb]; [|discriminate].
   intros H. split; [reflexivity|]. exists l, c. auto.
+Qed.
+
+(* an accepted key proof has no degenerate commitment: every recomputed group element is non-zero modulo the group prime *)
+Theorem vk_commitments_nonzero_lem n bases f1 f2 f3 p :
+  vk_verify n bases f1 f2 f3 p = Ok true ->
+  exists l, vk_list n bases p = Ok l /\ vk_nonzero n bases p l = Ok true.
+Proof.
+  unfold vk_verify. destruct (vk_structure_ok n bases f1 f2 p); [|discriminate]. cbn [negb].
+  destruct (vk_list n bases p) as [l| |]; cbn [obind]; try discriminate.
+  destruct (vk_challenge p) as [c|]; [|discriminate].
+  destruct (Z.eqb_spec c (hash_commit false l)); [|discriminate]. cbn [negb].
+  destruct (vk_nonzero n bases p l) as [nz| |] eqn:En; cbn [obind]; try discriminate.
+  destruct nz; cbn [negb]; [|discriminate]. intros _. exists l. split; [reflexivity|exact En].
 Qed.
